@@ -8,17 +8,19 @@
 (* The reset line carries the limits and the attributes of every item.       *)
 (* Hand-out order is checked as the statement has it: restored items first   *)
 (* (in any order), then arrival order.  Lists returned by expiry are         *)
-(* compared as sets plus a no-duplicates check.                              *)
+(* compared as sets plus a no-duplicates check.  Top is one atomic call; a    *)
+(* call overlapping it must take effect entirely before or after it (topc).  *)
 EXTENDS Mempool, TLC, Json, IOUtils, SequencesExt
 
-VARIABLE l
+VARIABLES l,     \* next line of Trace to explain
+          ph     \* "none", or which half of a topc line (Top overlapped by another call) has been applied: "top" / "conc"
 
 Trace == ndJsonDeserialize(IOEnv.TRACE)
 N     == Len(Trace)
-tvars == <<mvars, l>>
+tvars == <<mvars, l, ph>>
 
 NoDup(q) == Len(q) = Cardinality(SeqSet(q))
-Ev(e)    == l <= N /\ Trace[l].ev = e /\ l' = l + 1
+Ev(e)    == l <= N /\ Trace[l].ev = e /\ l' = l + 1 /\ ph = "none" /\ ph' = "none"
 T        == Trace[l]
 AttrOf(rec) == [i \in Items |-> rec[i]]
 
@@ -36,7 +38,7 @@ OutOK(out) == /\ NoDup(out)
               /\ SubSeq(out, Cardinality(res'.R) + 1, Len(out)) = res'.F
 
 TraceInit ==
-  /\ l = 2 /\ TLCSet(1, 1)
+  /\ l = 2 /\ TLCSet(1, 1) /\ ph = "none"
   /\ Trace[1].ev = "reset"
   /\ InitWith(Trace[1].max, Trace[1].maxsp, AttrOf(Trace[1].items))
 
@@ -60,7 +62,26 @@ TStream  == Ev("stream") /\ (\E n \in 0 .. Len(T.out) : Stream(T.k, SeqSet(SubSe
             /\ OutOK(T.out) /\ ProjOK
 TFinish  == Ev("finish") /\ FinishStreaming(T.restore, GotIn) /\ ProjOK
 
-TraceNext == TReset \/ TAdd \/ TRemove \/ TSetMin \/ TPop \/ THas \/ TStart \/ TPrepare \/ TStream \/ TFinish
+(* ---- Top ---- *)
+Back(v)  == {v[k].i : k \in {n \in DOMAIN v : v[n].restore}}
+TTop     == Ev("top") /\ Top(T.visits, T.stopped, SeqSet(T.mem) \cap Back(T.visits)) /\ ProjOK
+
+(* A topc line: while the visitor of Top was running, another goroutine called Add / Remove / SetMinTimestamp    *)
+(* (T.conc).  Start and end of both calls are stamped by one atomic counter (T.seq).  The statement allows exactly *)
+(* two explanations: the other call takes effect entirely after the whole Top, or - if it was issued before Top    *)
+(* returned - entirely before it.                                                                                  *)
+(* The line is applied in two half steps (ph); only the state after both halves is observed (ProjOK).             *)
+Conc(c) == CASE c.op = "add"    -> \E S \in SUBSET SeqSet(c.ids) : Add(c.ids, S)
+             [] c.op = "remove" -> Remove(c.ids)
+             [] c.op = "setmin" -> SetMin(c.t) /\ ExpiryExact(c.t) /\ SeqSet(c.out) = res'.R /\ NoDup(c.out)
+TopOf(x) == \E S \in SUBSET Back(x.visits) : Top(x.visits, x.stopped, S)
+IsTopc   == l <= N /\ T.ev = "topc" /\ T.seq.topCall < T.seq.concCall
+TTopcTop1  == IsTopc /\ ph = "none" /\ TopOf(T)  /\ ph' = "top"  /\ l' = l
+TTopcConc2 == IsTopc /\ ph = "top"  /\ Conc(T.conc) /\ ProjOK /\ ph' = "none" /\ l' = l + 1
+TTopcConc1 == IsTopc /\ ph = "none" /\ T.seq.concCall < T.seq.topRet /\ Conc(T.conc) /\ ph' = "conc" /\ l' = l
+TTopcTop2  == IsTopc /\ ph = "conc" /\ TopOf(T)  /\ ProjOK /\ ph' = "none" /\ l' = l + 1
+
+TraceNext == TTop \/ TTopcTop1 \/ TTopcConc2 \/ TTopcConc1 \/ TTopcTop2 \/ TReset \/ TAdd \/ TRemove \/ TSetMin \/ TPop \/ THas \/ TStart \/ TPrepare \/ TStream \/ TFinish
 TraceSpec == TraceInit /\ [][TraceNext]_tvars
 
 HWM      == TLCSet(1, IF TLCGet(1) > l - 1 THEN TLCGet(1) ELSE l - 1)
